@@ -144,11 +144,18 @@ def run (s : State) : List Op → State × List Obs
 /-! ### line-protocol driver -/
 namespace Drv
 
-abbrev State := C17.State
+/-- the router's state and, while a `SetValidPeers` call is held before it has taken effect, the
+set it is about to install -/
+structure State where
+  st : C17.State := {}
+  pending : Option (SetId × List Ident) := none
+
 def init : State := {}
 
 /-- `<key>:<id field>`; `<key>` alone is the honest identity -/
-def parseIdent (s : String) : Option Ident :=
+def parseIdent (s0 : String) : Option Ident :=
+  -- a trailing `!` marks the identity whose id derivation the harness holds (`sethold`)
+  let s := if s0.endsWith "!" then (s0.dropEnd 1).toString else s0
   match s.splitOn ":" with
   | [k] => k.toNat?.map Ident.honest
   | [k, f] => match k.toNat?, f.toNat? with
@@ -193,14 +200,26 @@ def showObs : Obs → String
 * `msg <key> <m>` — message m over the existing connection of that peer
 * `dial <ident>` — the filtering router sends to the peer (opens the connection itself)
 * `drop <key>`
+* `sethold <setid> <idents>` — a `SetValidPeers` call that is held while it derives the id of the
+  identity marked `!` (before its lock region, `router.go:96-106`): nothing has changed yet;
+  `release` lets it finish. `validPeers.lock` makes `set`, `get` and `isValid` atomic, so whatever
+  runs in between sees the table as it was before the call.
 -/
 def step (s : State) (toks : List String) : State × String :=
   let go (op : Option Op) : State × String :=
     match op with
     | none => (s, "bad-op")
-    | some op => let r := C17.step s op; (r.1, showObs r.2)
+    | some op => let r := C17.step s.st op; ({ s with st := r.1 }, showObs r.2)
   match toks with
   | ["open", tr] => if tr = "tcp" || tr = "local" then (init, "ok") else (s, "bad-op")
+  | ["sethold", id, ps] =>
+    match s.pending, parseSetId id, parseIdents ps with
+    | none, some id, some ps => ({ s with pending := some (id, ps) }, "held")
+    | _, _, _ => (s, "bad-op")
+  | ["release"] =>
+    match s.pending with
+    | some (id, ps) => ({ st := (C17.step s.st (.setPeers id ps)).1, pending := none }, "ok")
+    | none => (s, "bad-op")
   | ["set", id, ps] => go (do let id ← parseSetId id; let ps ← parseIdents ps; pure (.setPeers id ps))
   | ["get", id] => go ((parseSetId id).map .getPeers)
   | ["offer", p, m] => go (do let p ← parseIdent p; let m ← m.toNat?; pure (.offer p m))
